@@ -31,7 +31,7 @@ def _clean(x, top=True):
     """what TLC gets to see: no harness-side metadata, no JSON nulls (Json.tla cannot read them)"""
     if isinstance(x, dict):
         return {k: _clean(v, False) for k, v in x.items() if v is not None and not (top and k == "meta")
-                and k not in ("record", "acts", "params", "exc", "via", "x", "v")}
+                and k not in ("record", "acts", "params", "exc", "via", "probe_x", "probe_v")}
     if isinstance(x, (list, tuple)):
         return [_clean(v, False) for v in x]
     return x
